@@ -106,6 +106,13 @@ def build_tables(m, scale, stretch=1):
         tc.nodes.add_row(flags=1 if m.flags[u] else 0, time=times[u])
     for l, r, p, c in m.edges():
         tc.edges.add_row(l * stretch, r * stretch, p, c)
+    # parts of the data model that the tree text formats do not depend on, present on every second member:
+    # a migration with FRACTIONAL genome coordinates (and an integer time), time units, top-level metadata
+    if m.N >= 1 and (m.N + m.G + len(m.edges())) % 2 == 1:
+        tc.populations.add_row(metadata=b"p")
+        tc.migrations.add_row(left=0.25, right=0.75 * m.L * stretch, node=0, source=0, dest=0, time=3.0)
+        tc.time_units = "uncalibrated"
+        tc.metadata = b"top"
     return tc, times
 
 
@@ -857,6 +864,24 @@ def check_fasta(ts, eo, cfg, embedded, acc, case, nontrivial):
     ist, impl = impl_alignments(ts, ref, miss)
     if ist != "ok" or impl != exp:
         acc.fail("fasta:alignments_model", f"{cfg}: alignments() gives {impl}, model {exp}", case)
+    # an alignments() iterator that is still being consumed while OTHER exports of the same tree sequence run
+    # (another reference, another missing-data character) must keep yielding its own alignments
+    if len(exp) >= 2:
+        try:
+            it = ts.alignments(reference_sequence=ref, missing_data_character=miss)
+            got = [next(it)]
+            other = "ACGT"[int(eo.L) % 4] * int(eo.L)
+            try:
+                ts.as_fasta(reference_sequence=other, missing_data_character="x" if miss_eff != "x" else "y")
+                list(ts.alignments(missing_data_character="z"))
+            except ValueError:
+                pass
+            got += list(it)
+            if got != exp:
+                acc.fail("fasta:interleaved_iterators", f"{cfg}: an alignments() iterator interleaved with other exports "
+                         f"yields {got}, expected {exp}", case)
+        except Exception as e:  # noqa
+            acc.fail("fasta:interleaved_iterators:raised", f"{cfg}: {e!r}", case)
     try:
         recs = parse_fasta(text)
     except ValueError as e:
